@@ -50,11 +50,14 @@ OutViolation(i, o) ==
         ELSE "ok"
 
 Init == /\ st = "idle" /\ kinds = {} /\ age = 0 /\ byte = 0
-        /\ in = [ack |-> FALSE, nak |-> FALSE, stall |-> FALSE, ready |-> FALSE]
+        /\ in = [ack |-> FALSE, nak |-> FALSE, stall |-> FALSE, ready |-> FALSE, rst |-> FALSE]
         /\ out = [valid |-> FALSE, data |-> 0]
         /\ reqLog = <<>> /\ sentLog = <<>>
 
-Step(i, o) ==
+\* i.rst: the reset of the generator's clock domain is asserted in this cycle (acts at the clock edge ending it; the
+\* outputs of the cycle itself are the ordinary ones).  Afterwards the generator is idle: a handshake in flight is
+\* abandoned (tx_valid low), a request strobed in the reset cycle is lost, later requests are served as usual.
+StepNormal(i, o) ==
     LET accepted == o.valid /\ i.ready                      \* the PHY takes the byte in this cycle
         newreq   == st = "idle" /\ Requested(i) # {}
     IN /\ in' = i /\ out' = o
@@ -65,6 +68,12 @@ Step(i, o) ==
        /\ byte' = IF o.valid /\ ~accepted THEN o.data ELSE 0
        /\ reqLog' = IF newreq THEN Append(reqLog, Requested(i)) ELSE reqLog
        /\ sentLog' = IF accepted THEN Append(sentLog, o.data) ELSE sentLog
+
+StepReset(i, o) == /\ in' = i /\ out' = o
+                   /\ st' = "idle" /\ kinds' = {} /\ age' = 0 /\ byte' = 0
+                   /\ reqLog' = <<>> /\ sentLog' = <<>>              \* (the history restarts with a reset)
+
+Step(i, o) == IF i.rst THEN StepReset(i, o) ELSE StepNormal(i, o)
 
 -----------------------------------------------------------------------------
 (* Prop *)
@@ -86,7 +95,10 @@ HeldUntilAccepted == [][(st = "sending" /\ st' = "sending") => (out'.valid /\ ou
 SingleByte == [][(out.valid /\ in.ready) => ~out'.valid]_vars
 
 \* requests while busy change nothing
-BusyIgnoresRequests == [][Busy => reqLog' = reqLog]_vars
+BusyIgnoresRequests == [][(Busy /\ ~in'.rst) => reqLog' = reqLog]_vars
+
+\* a domain reset returns the generator to idle
+ResetIdles == [][in'.rst => st' = "idle"]_vars
 
 NeverLate == st = "pending" => age <= GLat
 =============================================================================
